@@ -103,6 +103,7 @@ type request struct {
 	t     *task
 	child *task
 	ch    uintptr
+	ref   interface{} // the channel itself: keeps it alive so that its address is not reused within a run
 	cap   int
 	site  int
 	pv    *TaskPanic
@@ -143,6 +144,7 @@ type task struct {
 }
 
 type chanState struct {
+	ref        interface{}
 	cap, count int
 	closed     bool
 	sendq      []*task
@@ -360,6 +362,24 @@ func taskExit(s *Sim, t *task) {
 	raceEnable()
 }
 
+// ExtendBudget sets the step budget of the running simulation to n steps from now.  A
+// harness that runs several operations in one simulation gives each its own allowance.
+//
+//go:norace
+func ExtendBudget(n int64) {
+	s := cur
+	if s == nil {
+		return
+	}
+	if s.aborted {
+		panic(abortPanic{})
+	}
+	s.budget = s.steps + n
+	if s.nextStop > s.budget || s.nextStop == 0 {
+		s.nextStop = s.budget
+	}
+}
+
 // Idle blocks the calling task (normally main) until no other task is runnable and returns
 // the tasks that are alive and disabled at that moment.
 //
@@ -407,7 +427,7 @@ func Send[T any](c chan<- T, v T, site int) {
 		c <- v
 		return
 	}
-	mode := before(s, reqSend, chanIDSend(c), cap(c), site)
+	mode := before(s, reqSend, chanIDSend(c), cap(c), site, c)
 	c <- v
 	after(s, mode)
 }
@@ -418,7 +438,7 @@ func Recv[T any](c <-chan T, site int) T {
 	if s == nil {
 		return <-c
 	}
-	mode := before(s, reqRecv, chanIDRecv(c), cap(c), site)
+	mode := before(s, reqRecv, chanIDRecv(c), cap(c), site, c)
 	v := <-c
 	after(s, mode)
 	return v
@@ -431,7 +451,7 @@ func Recv2[T any](c <-chan T, site int) (T, bool) {
 		v, ok := <-c
 		return v, ok
 	}
-	mode := before(s, reqRecv, chanIDRecv(c), cap(c), site)
+	mode := before(s, reqRecv, chanIDRecv(c), cap(c), site, c)
 	v, ok := <-c
 	after(s, mode)
 	return v, ok
@@ -448,20 +468,20 @@ func Close[T any](c chan<- T, site int) {
 		panic(abortPanic{})
 	}
 	close(c) // never blocks; panics exactly as in Go if c is nil or closed
-	notifyClose(s, chanIDSend(c), site)
+	notifyClose(s, chanIDSend(c), site, c)
 }
 
 //go:norace
 func isAborted(s *Sim) bool { return s.aborted }
 
 //go:norace
-func notifyClose(s *Sim, ch uintptr, site int) {
+func notifyClose(s *Sim, ch uintptr, site int, ref interface{}) {
 	s.steps++
-	s.call(request{kind: reqClose, t: s.current, ch: ch, site: site})
+	s.call(request{kind: reqClose, t: s.current, ch: ch, site: site, ref: ref})
 }
 
 //go:norace
-func before(s *Sim, kind reqKind, ch uintptr, capacity int, site int) int {
+func before(s *Sim, kind reqKind, ch uintptr, capacity int, site int, ref interface{}) int {
 	if s.aborted {
 		panic(abortPanic{})
 	}
@@ -471,7 +491,7 @@ func before(s *Sim, kind reqKind, ch uintptr, capacity int, site int) int {
 		s.call(request{kind: reqBlockForever, t: t, site: site})
 		panic("simrt: unreachable")
 	}
-	m := s.call(request{kind: kind, t: t, ch: ch, cap: capacity, site: site})
+	m := s.call(request{kind: kind, t: t, ch: ch, cap: capacity, site: site, ref: ref})
 	// after a wake-up the baton holder is this task again; s.current was set by the scheduler,
 	// except during a rendezvous, when two tasks run momentarily and s.current is not consulted.
 	if m.mode == modeNeedDone {
@@ -558,10 +578,10 @@ func schedLoop(s *Sim) {
 }
 
 //go:norace
-func (s *Sim) chanOf(id uintptr, capacity int) *chanState {
+func (s *Sim) chanOf(id uintptr, capacity int, ref interface{}) *chanState {
 	c := s.chans[id]
 	if c == nil {
-		c = &chanState{cap: capacity}
+		c = &chanState{cap: capacity, ref: ref}
 		s.chans[id] = c
 	}
 	return c
@@ -622,7 +642,7 @@ func (s *Sim) handle(r request) {
 		s.schedule(nil, true)
 	case reqSend:
 		s.res.ChanOps++
-		c := s.chanOf(r.ch, r.cap)
+		c := s.chanOf(r.ch, r.cap, r.ref)
 		switch {
 		case c.closed:
 			s.proceedNow(t)
@@ -641,7 +661,7 @@ func (s *Sim) handle(r request) {
 		}
 	case reqRecv:
 		s.res.ChanOps++
-		c := s.chanOf(r.ch, r.cap)
+		c := s.chanOf(r.ch, r.cap, r.ref)
 		switch {
 		case c.count > 0:
 			c.count--
@@ -667,7 +687,7 @@ func (s *Sim) handle(r request) {
 		}
 	case reqClose:
 		s.res.ChanOps++
-		c := s.chanOf(r.ch, r.cap)
+		c := s.chanOf(r.ch, r.cap, r.ref)
 		c.closed = true
 		for _, p := range c.recvq {
 			p.state = stRunnable
